@@ -169,7 +169,12 @@ def reparse_exports(d1, ctx, case):
 
 def make_desc(seed, i):
     rng = random.Random('fvmon/C09/%s/%s' % (seed, i))
-    return gw.gen(rng)
+    desc = gw.gen(rng)
+    if i % 3 == 1:
+        # every reference occurrence in one of its equivalent spellings
+        # ($ markers, case, reversed corners, own-sheet qualification)
+        desc['spelling'] = 'c09/%s' % i
+    return desc
 
 
 def check_desc(case, ctx):
